@@ -1241,9 +1241,17 @@ func (b *broker) subEventHistory(msg *wamp.Invocation) wamp.Message {
 						}
 					}
 
-					eventTopic, ok := entry.event.Details["topic"]
-					if len(topicUri) > 0 && (!ok || eventTopic != topicUri) {
-						continue
+					if len(topicUri) > 0 {
+						eventTopic, ok := entry.event.Details["topic"]
+						if !ok {
+							// Events of an exact match subscription carry
+							// no topic detail; their topic is the
+							// subscription's topic.
+							eventTopic = subscription.topic
+						}
+						if eventTopic != topicUri {
+							continue
+						}
 					}
 
 					filteredEvents = append(filteredEvents, entry.event)
